@@ -17,14 +17,19 @@ for l in demos.splitlines():
                 demo_files.append(os.path.relpath(os.path.join(root, n), wt))
     else:
         demo_files.append(f)
+names = {}
 for f in demo_files:
-    shutil.copy(os.path.join(wt, f), os.path.join(d, os.path.basename(f)))
+    n = os.path.basename(f)
+    if [os.path.basename(g) for g in demo_files].count(n) > 1:  # same file name in several packages
+        n = f.replace("/", "__")
+    names[f] = n
+    shutil.copy(os.path.join(wt, f), os.path.join(d, n))
 base = subprocess.run(["git", "-C", wt, "rev-parse", "--short", "HEAD"], capture_output=True, text=True).stdout.strip()
 verify = open(os.path.join(wt, "verify.log")).read() if os.path.exists(os.path.join(wt, "verify.log")) else ""
 meta = {
   "property": pid, "seed": f"{pid}-{tag}", "base_commit": base,
   "breaks_clause": clause, "needs_to_manifest": needs,
-  "demo_files": {os.path.basename(f): f for f in demo_files},
+  "demo_files": {names[f]: f for f in demo_files},
   "demo_cmd": "copy the demo file to its path in the tree, then: go test -vet=off -count=1 -run SeedDemo ./" + os.path.dirname(demo_files[0]) + "/" if demo_files else "",
   "confirmed_by_me": {"build": "BUILD-OK" in verify, "demo_fails_with_change": "FAIL" in verify.split("WITHOUT")[0] if verify else None,
                       "demo_passes_without": ("ok " in verify.split("WITHOUT")[1].split("== existing")[0]) if "WITHOUT" in verify else None,
